@@ -121,6 +121,7 @@ class BrukerH5ebsdFile(H5ebsdFile):
             # Sort data points into correct order
             rc = np.array([self.map_rows, self.map_cols])
             map_order = np.ravel_multi_index(rc, self.map_shape).argsort()
+            self.y = self.y[map_order]
             self.x = self.x[map_order]
             self.phase_id = self.phase_id[map_order]
             self.rotations = self.rotations[map_order]
